@@ -23,7 +23,7 @@ T = {  # id: (technique, level text, level note, design ref)
          "Trusted: harness embed (not prysm.pad2d); relations are exact for the textbook transform."),
  'C06': ("Hypothesis cases; adjoint identity <y,Ax>=<A^H y,x> and central directional derivatives",
          "Bounded exploration of every shipped forward/backprop pair: linear maps by the adjoint identity with complex vectors, non-linear nodes and costs by two-step-size directional derivatives.",
-         "Trusted: float64 inner products; finite differences at two step sizes (error of a wrong gradient is O(1), tolerance 1e-6)."),
+         "Trusted: float64 inner products; finite differences at two step sizes (error of a wrong gradient is O(1), tolerance 1e-6). One open known finding (known_findings.json): DM.render_backprop of a rotated / tilted mirror is not the exact adjoint (interpolating warp); its bucket alone is suppressed and printed as KNOWN-FINDING, rotated mirrors are still held to a gross bound and to every other assertion."),
  'C07': ("Hypothesis cases vs scipy.special / closed forms / exact rational Zernike sums; Gauss-quadrature Gram matrices",
          "Bounded exploration of orders up to the numerically meaningful limit, all admissible shape parameters and N-D points against independent implementations; orthogonality through quadrature rules exact for the degrees involved.",
          "Trusted: scipy.special evaluators, numpy Gauss nodes, Python fractions."),
@@ -103,7 +103,7 @@ man = {
                  'kind_free_text': 'Hypothesis 6.168 strategies + rule-based state machines + exhaustive enumeration of small finite domains, 16-process pool, root-cause bucketing, JSON replay files'}],
     'checks': checks,
     'not_applicable': na,
-    'notes': 'All checks: /venv/bin/python vcheck.py <ID> --tier quick|thorough; VERIF_SEED selects the Hypothesis seed. Genuine defects repaired by fix: commits in /repo and listed (status fixed) in known_findings.json; open entries print KNOWN-FINDING lines.',
+    'notes': 'All checks: /venv/bin/python vcheck.py <ID> --tier quick|thorough; VERIF_SEED selects the Hypothesis seed. The thorough tier adds targeted search: hypothesis.target() is fed each case\'s closest approach (error / tolerance) to any of its tolerances; the largest approach seen is reported per clause in the evidence (closest_approach_to_a_tolerance). Genuine defects repaired by fix: commits in /repo and listed (status fixed) in known_findings.json; open entries print KNOWN-FINDING lines.',
 }
 json.dump(man, open(os.path.join(HERE, 'MANIFEST.json'), 'w'), indent=1)
 print('claimed', built, 'not_applicable', [n['property_id'] for n in na])
